@@ -1,10 +1,27 @@
-import AcraModel.Basic.Bytes
-/-! Driver ops for C16. -/
+import AcraModel.Sql.Shape
+import AcraModel.Sql.GoNum
+/-! Driver ops for C16 (redaction). Trees travel as token lists (`Sql.render` / `Sql.parseTreeAll`). -/
 namespace Driver.C16
-open AcraModel
+open AcraModel AcraModel.Sql
 
 def handle (op : String) (args : List String) : Option String :=
   match op, args with
+  | "normalize", _dialect :: pfx :: _stmt :: toks => do
+      let pfx ← ofHex pfx
+      let t ← parseTreeAll toks
+      pure ("ok " ++ renderStr (normalize GoNum.goValid pfx t))
+  | "redacttree", _dialect :: _stmt :: toks => do
+      let t ← parseTreeAll toks
+      pure ("ok " ++ renderStr (redact GoNum.goValid t))
+  | "lits", toks => do
+      let t ← parseTreeAll toks
+      pure ("ok " ++ toString (lits t).length ++ " " ++ ",".intercalate ((lits t).map hexOf))
+  | "bindvars", toks => do
+      let t ← parseTreeAll toks
+      pure ("ok " ++ ",".intercalate ((bindvars t).map hexOf))
+  | "shape", toks => do
+      let t ← parseTreeAll toks
+      pure ("ok " ++ renderStr (shape t))
   | _, _ => none
 
 end Driver.C16
